@@ -613,3 +613,107 @@ Example C10_sd_roundtrip_finding_own_FoamFile :
                         (c10s_K "a", Leaf (SInt 1)); (c10s_K "b", c10s_S "x y")]
                        [(8, foam_rule)] [(0, foam_banner)] [] []) 9).
 Proof. vm_compute. repeat split; reflexivity. Qed.
+
+(* ================================================================================================== *)
+(* non-vacuity examples added after the reviewer's audit (Properties/C10_nv.v, 2026-10-01)         *)
+(* ================================================================================================== *)
+
+From Coq Require Import Lia.
+(* ==== non-vacuity instances obtained BY APPLYING the theorems above (added after review) ================== *)
+
+(* C10_values_as_native on c10_doc (depth 4, underscore keys at three levels and inside a list, strings with an apostrophe,
+   blanks, structural characters, a padded word, a number-like string, int keys) *)
+Example C10_values_as_native_nonvacuous :
+  foam_writable_tree (Dict c10_doc) = true /\
+  map_leaves foam_written_value (strip_us (Dict c10_doc)) = map_leaves written_value (strip_us (Dict c10_doc)) /\
+  map_leaves written_value (strip_us (Dict c10_doc)) = Dict c10_back.
+Proof.
+  assert (H : foam_writable_tree (Dict c10_doc) = true) by (vm_compute; reflexivity).
+  refine (conj H (conj (C10_values_as_native c10_doc H) _)). vm_compute. reflexivity.
+Qed.
+
+(* C10_scan_trace_is_scanner on the Foam text of c10_doc, the counter two steps before the wrap-around (six literals: the
+   ids are 999998 999999 0 1 2 3), and on the native text of the same data (single-quoted literals) *)
+Example C10_scan_trace_is_scanner_nonvacuous :
+  let s1 := remove_line_endings (foam_to_string_plain c10_doc) in
+  let s2 := remove_line_endings (to_string_plain (stripped c10_doc)) in
+  fst (scan_trace (S (length s1)) false 999997 [] [] s1) = scan_literals (S (length s1)) false 999997 [] [] s1 /\
+  fst (scan_trace (S (length s2)) false 999997 [] [] s2) = scan_literals (S (length s2)) false 999997 [] [] s2 /\
+  snd (scan_literals (S (length s1)) false 999997 [] [] s1) =
+    [(999998%N, of_string "two words"); (999999%N, of_string "it's"); (0%N, []); (1%N, of_string "a;b {c}"); (2%N, of_string "(");
+     (3%N, of_string " true ")] /\
+  snd (fst (scan_literals (S (length s1)) false 999997 [] [] s1)) = 3%Z /\
+  map fst (snd (scan_trace (S (length s1)) false 999997 [] [] s1)) = [c_dq; c_dq; c_dq; c_dq; c_dq; c_dq] /\
+  map fst (snd (scan_trace (S (length s2)) false 999997 [] [] s2)) = [c_sq; c_dq; c_sq; c_sq; c_sq; c_sq].
+Proof.
+  intros s1 s2.
+  refine (conj (C10_scan_trace_is_scanner _ _ _ _ _ _) (conj (C10_scan_trace_is_scanner _ _ _ _ _ _) _)).
+  repeat split; vm_compute; reflexivity.
+Qed.
+
+(* C10_text_shape on c10_doc: six holes *)
+Example C10_text_shape_nonvacuous :
+  foam_writable_tree (Dict c10_doc) = true /\
+  qstrs (strip_us (Dict c10_doc)) = [of_string "two words"; of_string "it's"; []; of_string "a;b {c}"; of_string "("; of_string " true "] /\
+  exists A, foam_to_string_plain c10_doc = expandL (map dq (qstrs (strip_us (Dict c10_doc)))) A /\
+            forallb (fun c => negb (is_quote c)) A = true /\ nh A = length (qstrs (strip_us (Dict c10_doc))) /\
+            Forall (fun s => no_dq s = true) (qstrs (strip_us (Dict c10_doc))).
+Proof.
+  assert (H : foam_writable_tree (Dict c10_doc) = true) by (vm_compute; reflexivity).
+  refine (conj H (conj _ (C10_text_shape c10_doc H))). vm_compute. reflexivity.
+Qed.
+
+(* C10_foam_header_pieces is a closed statement; used here: the header is as long as its pieces, it begins with the
+   banner, and each piece is what its name says *)
+Example C10_foam_header_pieces_nonvacuous :
+  length foam_header = (length foam_banner + 1 + length foam_file_block + length foam_rule + 1)%nat /\
+  starts_with foam_banner foam_header = true /\
+  (length foam_header, length foam_banner, length foam_file_block, length foam_rule) = (807, 559, 167, 79)%nat /\
+  contains (of_string "OpenFOAM") foam_banner = true /\ contains (of_string "FoamFile") foam_file_block = true /\
+  contains (of_string "FoamFile") foam_banner = false /\ starts_with (of_string "// ") foam_rule = true.
+Proof.
+  split; [rewrite C10_foam_header_pieces, !app_length; cbn [length]; lia|].
+  split; [rewrite C10_foam_header_pieces; vm_compute; reflexivity|]. repeat split; vm_compute; reflexivity.
+Qed.
+
+(* C10_scan_input_is_lexers on a text with two line comments (one of them with a quoted text inside), an include directive,
+   a block comment with a double-quoted text inside, literals of both flavours each containing the other quote character;
+   counter 999995: the comments and the include take 999996 .. 999998, the literals 999999, 0, 1 *)
+Definition c10nv_text : str := of_string "// first 'not a literal'
+#include 'sub.dict'
+a 1; /* blk ""x"" */ b 'lit one';
+c { d ""two's""; e 2.5; } // second
+f 'it is ""so""';
+".
+Example C10_scan_input_is_lexers_nonvacuous :
+  let dir := of_string "/d" in
+  lxd_lit (lex true dir 999995 c10nv_text) =
+    snd (scan_literals (S (length (scan_input true dir 999995 c10nv_text))) false (scan_count true dir 999995 c10nv_text) [] []
+           (scan_input true dir 999995 c10nv_text)) /\
+  lxd_lit (lex false dir 999995 c10nv_text) =
+    snd (scan_literals (S (length (scan_input false dir 999995 c10nv_text))) false (scan_count false dir 999995 c10nv_text) [] []
+           (scan_input false dir 999995 c10nv_text)) /\
+  scan_input true dir 999995 c10nv_text =
+    of_string "LINECOMMENT999996 INCLUDE999998 a 1; BLOCKCOMMENT000000 b 'lit one'; c { d ""two's""; e 2.5; } LINECOMMENT999997 f 'it is ""so""';" /\
+  scan_count true dir 999995 c10nv_text = 999998%Z /\
+  lxd_lit (lex true dir 999995 c10nv_text) = [(999999%N, of_string "lit one"); (0%N, of_string "two's"); (1%N, of_string "it is ""so""")].
+Proof.
+  intros dir. refine (conj (C10_scan_input_is_lexers _ _ _ _) (conj (C10_scan_input_is_lexers _ _ _ _) _)).
+  repeat split; vm_compute; reflexivity.
+Qed.
+
+(* C10_sd_text_shape on c10s_sd (nested dict two deep, underscore keys at three levels and inside a list, strings with
+   blanks, an apostrophe, a lone bracket): the header and a quote-free skeleton with three holes *)
+Example C10_sd_text_shape_nonvacuous :
+  let s := c10s_sd in
+  sd_lc s = [] /\ sd_bc s = [] /\ sd_inc s = [] /\ foam_writable_tree (Dict (sd_data s)) = true /\
+  qstrs (strip_us (Dict (sd_data s))) = [of_string "two words"; of_string "it's"; of_string "("] /\
+  has_char c_sq (foam_to_string_sd s) = true /\
+  exists A, foam_to_string_sd s = foam_header ++ expandL (map dq (qstrs (strip_us (Dict (sd_data s))))) A /\
+            forallb (fun c => negb (is_quote c)) (foam_header ++ A) = true /\
+            nh A = length (qstrs (strip_us (Dict (sd_data s)))) /\
+            Forall (fun x => no_dq x = true) (qstrs (strip_us (Dict (sd_data s)))).
+Proof.
+  intros s. assert (H : foam_writable_tree (Dict (sd_data s)) = true) by (vm_compute; reflexivity).
+  refine (conj eq_refl (conj eq_refl (conj eq_refl (conj H (conj _ (conj _ (C10_sd_text_shape s eq_refl eq_refl eq_refl H))))))); vm_compute; reflexivity.
+Qed.
